@@ -198,13 +198,26 @@ def r3(F, R):
                     tsl = A.slice_back(nb, [t["args"][0]], stop_calls=[r"Future::poll$"])
                     own = own or (owner, "scenarios") in tsl.fields
                 ok = sorted(ad) == ["collect", "filter", "into_iter"] and own
+                loop = None
+                if not ok and A.rvalue_operands(st["rv"]):
+                    # the explicit-loop spelling of into_iter().filter(pred).collect()
+                    loop = A.loop_filter_idiom(F, nb, A.rvalue_operands(st["rv"])[0])
+                    if loop is not None:
+                        ssl = A.slice_back(nb, [loop["source"]], stop_calls=[r"Future::poll$"])
+                        own = any(callee_is(t2, r"mem::take$") and (owner, "scenarios") in A.slice_back(nb, [t2["args"][0]], stop_calls=[r"Future::poll$"]).fields for _, t2 in ssl.calls)
+                        ok = own
+                        ad = ["for", "if pred", "push"]
                 inst = f"rebuild/{owner.split('::')[1]}.scenarios"
                 R.check(ok, inst, s, "= taken.into_iter().filter(pred).collect()", f"{owner}.scenarios is rebuilt through {sorted(ad)} (own taken value: {own})")
                 # predicate calls the composed filter with rule Some/None
                 fl = [t for _, t in chain if callee_is(t, r"Iterator::filter$")]
-                if fl:
-                    pk = A.closure_of_operand(F, nb, fl[0]["args"][1])
-                    calls = [(s2, t2) for s2, t2 in pk.calls(lambda t2: re.search(r"ops::Fn", (op_fn(t2["func"]) or {}).get("trait", "")))] if pk else []
+                if fl or loop is not None:
+                    if loop is not None:
+                        pk = nb
+                        calls = [loop["pred"]] if re.search(r"ops::Fn", (op_fn(loop["pred"][1]["func"]) or {}).get("trait", "")) else []
+                    else:
+                        pk = A.closure_of_operand(F, nb, fl[0]["args"][1])
+                        calls = [(s2, t2) for s2, t2 in pk.calls(lambda t2: re.search(r"ops::Fn", (op_fn(t2["func"]) or {}).get("trait", "")))] if pk else []
                     okp = False
                     if len(calls) == 1:
                         tup = op_local(calls[0][1]["args"][1])
